@@ -108,10 +108,19 @@ require (
 	verif/harness v0.0.0
 )
 
-replace github.com/200sc/bebop => /repo
+replace github.com/200sc/bebop => ` + RepoDir() + `
 
 replace verif/harness => ` + harnessDir() + `
 `
+
+// RepoDir is the checkout of 200sc/bebop under verification: /repo, unless VERIF_REPO
+// names another one (bin/seedtest runs seeded changes in a scratch worktree).
+func RepoDir() string {
+	if r := os.Getenv("VERIF_REPO"); r != "" {
+		return r
+	}
+	return "/repo"
+}
 
 func harnessDir() string {
 	if r := os.Getenv("VERIF_ROOT"); r != "" {
